@@ -48,6 +48,23 @@ def main():
                     args[k] = [np.array(x, dtype=np.double) for x in args[k]]
                 elif kind == 'list-array':
                     args[k] = [array.array('d', x) for x in args[k]]
+                elif kind == 'ndarray-F':
+                    import numpy as np
+                    args[k] = np.asfortranarray(np.array(args[k], dtype=np.double))
+                elif kind == 'list-strided':
+                    import numpy as np
+                    lst = []
+                    for x in args[k]:
+                        a = np.array(x, dtype=np.double)
+                        if a.ndim == 1:
+                            big = np.full(2 * len(a), -555.5)
+                            big[::2] = a
+                            lst.append(big[::2])
+                        else:
+                            big = np.full((a.shape[0], a.shape[1] + 2), -555.5)
+                            big[:, 1:-1] = a
+                            lst.append(big[:, 1:-1])
+                    args[k] = lst
             if req.get('omp_threads'):
                 import ctypes
                 ctypes.CDLL('libgomp.so.1').omp_set_num_threads(int(req['omp_threads']))
